@@ -126,8 +126,11 @@ class FakeSocket(object):
         self.addr = self.addr or (addr[0], addr[1])
         return self.send(data)
 
+    t_last_recv = None          # when recv() was last called, whatever it did
+
     def recv(self, n):
         net = self.net
+        self.t_last_recv = net.clock.now
         if self.inq and self.inq[0][0] <= net.clock.now:
             t, _, d = heapq.heappop(self.inq)
             out = d[:n]       # a datagram socket truncates to the buffer
@@ -194,6 +197,13 @@ class Net(object):
             if kind == "rc":
                 reply = make_rc_reply(data, out[1])
                 self.deliver(sock, reply, out[2])
+                continue
+            if kind == "replay":
+                # a stale duplicate: the answer to an EARLIER request turns
+                # up now
+                reply = handler(sock, sock.addr, out[1])
+                if reply is not None:
+                    self.deliver(sock, reply, out[2])
                 continue
             reply = handler(sock, sock.addr, data)
             if reply is None or kind == "reply_lost":
